@@ -20,6 +20,7 @@
 #include <unistd.h>
 #include <fcntl.h>
 #include <time.h>
+#include <sys/wait.h>
 
 #if defined(__SANITIZE_ADDRESS__)
 #define VERIF_ASAN 1
@@ -301,6 +302,25 @@ inline int finish() {
 	write_result(false, "");
 	fflush(stdout); fflush(stderr);
 	return rec.violations.empty() ? 0 : 1;
+}
+
+// Run f() in a forked child with stderr silenced; returns its exit status (>=128: killed by a signal or sanitizer).
+// Used only to demonstrate known findings whose witness kills the process.
+template<typename F>
+int in_child(F &&f) {
+	fflush(stdout); fflush(stderr);
+	pid_t pid = fork();
+	if(pid == 0) {
+		int dn = open("/dev/null", O_WRONLY);
+		if(dn >= 0) { dup2(dn, 2); dup2(dn, 1); }
+		g_crash_path[0] = 0; // the child must not overwrite the parent's result file
+		int rc = f();
+		_exit(rc);
+	}
+	int st = 0;
+	if(waitpid(pid, &st, 0) < 0) return 255;
+	if(WIFEXITED(st)) return WEXITSTATUS(st);
+	return 128 + (WIFSIGNALED(st) ? WTERMSIG(st) : 0);
 }
 
 // Scaled count: quick/thorough base numbers times --scale
